@@ -65,6 +65,7 @@ impl StringAdapter {
 #[async_trait]
 impl Adapter for StringAdapter {
     async fn load_policy(&mut self, m: &mut dyn Model) -> Result<()> {
+        self.is_filtered = false;
         let policies = self.policy.split("\n");
         for line in policies {
             load_policy_line(line, m);
@@ -77,36 +78,48 @@ impl Adapter for StringAdapter {
         m: &mut dyn Model,
         f: Filter<'a>,
     ) -> Result<()> {
+        self.is_filtered = false;
         let policies = self.policy.split("\n");
         for line in policies {
+            if line.is_empty() || line.starts_with('#') {
+                continue;
+            }
             if let Some(tokens) = parse_csv_line(line) {
-                let sec = &tokens[0];
-                let ptype = &tokens[1];
-                let rule = tokens[1..].to_vec().clone();
+                // a line is `ptype, field0, field1, ...`; the section is the
+                // first character of the policy type (as in load_policy_line)
+                let key = &tokens[0];
+                let rule = tokens[1..].to_vec();
                 let mut is_filtered = false;
 
-                if sec == "p" {
-                    for (i, r) in f.p.iter().enumerate() {
-                        if !r.is_empty() && r != &rule[i + 1] {
-                            is_filtered = true;
+                if let Some(ref sec) = key.chars().next().map(|x| x.to_string())
+                {
+                    if sec == "p" {
+                        for (i, r) in f.p.iter().enumerate() {
+                            if !r.is_empty()
+                                && Some(&r.to_string()) != rule.get(i)
+                            {
+                                is_filtered = true;
+                            }
                         }
                     }
-                }
-                if sec == "g" {
-                    for (i, r) in f.g.iter().enumerate() {
-                        if !r.is_empty() && r != &rule[i + 1] {
-                            is_filtered = true;
+                    if sec == "g" {
+                        for (i, r) in f.g.iter().enumerate() {
+                            if !r.is_empty()
+                                && Some(&r.to_string()) != rule.get(i)
+                            {
+                                is_filtered = true;
+                            }
                         }
                     }
-                }
-                if !is_filtered {
-                    if let Some(ast_map) = m.get_mut_model().get_mut(sec) {
-                        if let Some(ast) = ast_map.get_mut(ptype) {
-                            ast.get_mut_policy().insert(rule);
+                    if !is_filtered {
+                        if let Some(ast_map) = m.get_mut_model().get_mut(sec) {
+                            if let Some(ast) = ast_map.get_mut(key) {
+                                ast.get_mut_policy().insert(rule);
+                            }
                         }
+                    } else {
+                        self.is_filtered = true;
                     }
-                } else {
-                    self.is_filtered = true;
                 }
             }
         }
